@@ -66,6 +66,9 @@ types, assume_specifications, spec functions, lemmas):
   //@okmap? <needle>                 (DESIGN 9.2 rule 15) the statement `E.ok().map(|p| CALL);` that starts with <needle> - value discarded - is read as
                                       `if let Ok(p) = E { CALL; }` (std: Result::ok + Option::map call the closure exactly when E is Ok, with its payload);
                                       skipped (recorded) when no such statement exists, e.g. because the code already uses `if let` / `let else`
+  //@foreach <needle>                (DESIGN 9.2 rule 29) the statement `ITER.for_each(|p| EXPR);` that starts with <needle> is read as `for p in ITER { EXPR; }`
+                                      (std: Iterator::for_each calls the closure on each item, in order; same as a for loop); applied BEFORE the loop directives, so the
+                                      generated loop has an ordinal like any other
   //@continue_to_else <ordinal>      in the body of the n-th loop (a `for`), `if COND { continue; } REST` becomes `if COND {} else { REST }`
                                       (Verus' for-loops do not support `continue`; same control flow) - DESIGN 9.2 rule 12
   //@letelse_continue <ordinal>      in the body of the n-th loop (a `for`), `let PAT = EXPR else { continue; }; REST` becomes `if let PAT = EXPR { REST }` (rule 12b)
@@ -349,6 +352,41 @@ def _okmap(body, needle, fname):
     if d != 0 or call.startswith('{'):
         return body, None
     new = 'if let Ok(%s) = %s { %s; }' % (pat, expr, call)
+    return body[:start] + new + body[end + 1:], {'fn': fname, 'from': re.sub(r'\s+', ' ', stmt) + ';', 'to': new}
+
+
+def _foreach(body, needle, fname):
+    """Rule 29. Returns (new_body, info|None)."""
+    rx = re.compile(r'\s*'.join(re.escape(tok) for tok in needle.split()))
+    start = None
+    for j, d in rc.code_positions(body):
+        if rx.match(body, j) and (j == 0 or not (body[j - 1].isalnum() or body[j - 1] == '_')):
+            start = j; break
+    if start is None:
+        return body, None
+    depth, end = 0, None
+    for k, d in rc.code_positions(body, start):
+        c = body[k]
+        if c in '([{': depth += 1
+        elif c in ')]}': depth -= 1
+        elif c == ';' and depth == 0:
+            end = k; break
+    if end is None:
+        return body, None
+    stmt = body[start:end]
+    m = re.match(r'(?s)^(.*)\.\s*for_each\s*\(\s*\|\s*([A-Za-z_][A-Za-z0-9_]*)\s*\|\s*(.*)\)\s*$', stmt)
+    if not m:
+        return body, None
+    it, pat, call = m.group(1).strip(), m.group(2), m.group(3).strip()
+    d = 0
+    for ch in call:
+        if ch in '([{': d += 1
+        elif ch in ')]}': d -= 1
+        if d < 0:
+            return body, None
+    if d != 0 or call.startswith('{'):
+        return body, None
+    new = 'for %s in %s { %s; }' % (pat, it, call)
     return body[:start] + new + body[end + 1:], {'fn': fname, 'from': re.sub(r'\s+', ' ', stmt) + ';', 'to': new}
 
 
@@ -895,6 +933,7 @@ def expand(template_path, repo='/repo'):
             clauses, loops, loopvars, ghosts, dropstmts, c2e, loopbodies, atend, befores = [], {}, {}, [], [], [], {}, [], []
             lifts, lifted_out = [], []
             okmaps = []
+            foreachs = []
             sigsubsts = []
             selfrename = None
             mapors, thunks = [], []
@@ -906,7 +945,7 @@ def expand(template_path, repo='/repo'):
             afters = []
             while i + 1 < len(tpl) and (tpl[i + 1].strip().startswith('//@|') or tpl[i + 1].strip().startswith('//@loop')
                                         or tpl[i + 1].strip().startswith('//@ghost') or tpl[i + 1].strip().startswith('//@dropstmt') or tpl[i + 1].strip().startswith('//@atend') or tpl[i + 1].strip().startswith('//@after') or tpl[i + 1].strip().startswith('//@atreturn') or tpl[i + 1].strip().startswith('//@before')
-                                        or tpl[i + 1].strip().startswith('//@continue_to_else') or tpl[i + 1].strip().startswith('//@letelse_continue') or tpl[i + 1].strip().startswith('//@loopend') or tpl[i + 1].strip().startswith('//@loopafter') or tpl[i + 1].strip().startswith('//@lift') or tpl[i + 1].strip().startswith('//@sigsubst') or tpl[i + 1].strip().startswith('//@selfrename') or tpl[i + 1].strip().startswith('//@mapor') or tpl[i + 1].strip().startswith('//@thunk') or tpl[i + 1].strip().startswith('//@okmap') or tpl[i + 1].strip().startswith('//@mapdefault')):
+                                        or tpl[i + 1].strip().startswith('//@continue_to_else') or tpl[i + 1].strip().startswith('//@letelse_continue') or tpl[i + 1].strip().startswith('//@loopend') or tpl[i + 1].strip().startswith('//@loopafter') or tpl[i + 1].strip().startswith('//@lift') or tpl[i + 1].strip().startswith('//@sigsubst') or tpl[i + 1].strip().startswith('//@selfrename') or tpl[i + 1].strip().startswith('//@mapor') or tpl[i + 1].strip().startswith('//@thunk') or tpl[i + 1].strip().startswith('//@okmap') or tpl[i + 1].strip().startswith('//@foreach') or tpl[i + 1].strip().startswith('//@mapdefault')):
                 i += 1
                 t = tpl[i].strip()
                 if t.startswith('//@|'):
@@ -929,6 +968,8 @@ def expand(template_path, repo='/repo'):
                     mapdefaults.append((nd.strip(), [x.strip() for x in vs.split(',')]))
                 elif t.startswith('//@okmap'):
                     okmaps.append(t.split(None, 1)[1].strip())
+                elif t.startswith('//@foreach'):
+                    foreachs.append(t.split(None, 1)[1].strip())
                 elif t.startswith('//@liftdrainfilter'):
                     nd, nm, el, extra = [x.strip() for x in t[len('//@liftdrainfilter'):].split('|', 3)]
                     lifts.append({'kind': 'drainfilter', 'needle': nd, 'name': nm, 'elem': el, 'extra': extra, 'clauses': [], 'pre': [], 'post': [], 'inv': [], 'removed': [], 'kept': []})
@@ -1084,6 +1125,12 @@ def expand(template_path, repo='/repo'):
                     side.setdefault('normalized_statements', []).append(oinfo)
                 else:
                     side.setdefault('skipped_normalizations', []).append('%s: okmap %s (statement not present in this form)' % (name, nd))
+            for nd in foreachs:
+                body, oinfo = _foreach(body, nd, name)
+                if oinfo:
+                    side.setdefault('normalized_statements', []).append(oinfo)
+                else:
+                    raise CutError('fn %s: foreach: no statement `ITER.for_each(|p| EXPR);` starting with %r (unsupported construct)' % (name, nd))
             for ordinal in sorted(lec, reverse=True):
                 body = _letelse_continue(body, ordinal, name)
                 side.setdefault('normalized_loops', []).append('%s: loop %d: `let P = E else { continue; }; REST` -> `if let P = E { REST }`' % (name, ordinal))
